@@ -137,33 +137,35 @@ Record st := {
   tR : timer;            (* retry_timer *)
   seqc : Z;              (* arming sequence number of the timer double *)
   sres : Z;              (* scripted result of espconn_sent *)
+  cres : Z;              (* scripted result of espconn_connect (ignored by the code: the timeout timer is armed before the call) *)
   halted : bool;         (* an access outside an object happened *)
   fires : Z }.           (* ghost: number of timer callbacks run so far *)
 
 Definition init : st :=
   {| now := 0; tc := 0; success := false; ip := zeros 4; cbp := false; req := None; dlen := 0; reg := false;
-     tT := t_off; tR := t_off; seqc := 0; sres := 0; halted := false; fires := 0 |}.
+     tT := t_off; tR := t_off; seqc := 0; sres := 0; cres := 0; halted := false; fires := 0 |}.
 
-Definition set_now v s := {| now := v; tc := tc s; success := success s; ip := ip s; cbp := cbp s; req := req s; dlen := dlen s; reg := reg s; tT := tT s; tR := tR s; seqc := seqc s; sres := sres s; halted := halted s; fires := fires s |}.
-Definition set_tc v s := {| now := now s; tc := v; success := success s; ip := ip s; cbp := cbp s; req := req s; dlen := dlen s; reg := reg s; tT := tT s; tR := tR s; seqc := seqc s; sres := sres s; halted := halted s; fires := fires s |}.
-Definition set_success v s := {| now := now s; tc := tc s; success := v; ip := ip s; cbp := cbp s; req := req s; dlen := dlen s; reg := reg s; tT := tT s; tR := tR s; seqc := seqc s; sres := sres s; halted := halted s; fires := fires s |}.
-Definition set_ip v s := {| now := now s; tc := tc s; success := success s; ip := v; cbp := cbp s; req := req s; dlen := dlen s; reg := reg s; tT := tT s; tR := tR s; seqc := seqc s; sres := sres s; halted := halted s; fires := fires s |}.
-Definition set_cbp v s := {| now := now s; tc := tc s; success := success s; ip := ip s; cbp := v; req := req s; dlen := dlen s; reg := reg s; tT := tT s; tR := tR s; seqc := seqc s; sres := sres s; halted := halted s; fires := fires s |}.
-Definition set_req v s := {| now := now s; tc := tc s; success := success s; ip := ip s; cbp := cbp s; req := v; dlen := dlen s; reg := reg s; tT := tT s; tR := tR s; seqc := seqc s; sres := sres s; halted := halted s; fires := fires s |}.
-Definition set_dlen v s := {| now := now s; tc := tc s; success := success s; ip := ip s; cbp := cbp s; req := req s; dlen := v; reg := reg s; tT := tT s; tR := tR s; seqc := seqc s; sres := sres s; halted := halted s; fires := fires s |}.
-Definition set_reg v s := {| now := now s; tc := tc s; success := success s; ip := ip s; cbp := cbp s; req := req s; dlen := dlen s; reg := v; tT := tT s; tR := tR s; seqc := seqc s; sres := sres s; halted := halted s; fires := fires s |}.
-Definition set_tT v s := {| now := now s; tc := tc s; success := success s; ip := ip s; cbp := cbp s; req := req s; dlen := dlen s; reg := reg s; tT := v; tR := tR s; seqc := seqc s; sres := sres s; halted := halted s; fires := fires s |}.
-Definition set_tR v s := {| now := now s; tc := tc s; success := success s; ip := ip s; cbp := cbp s; req := req s; dlen := dlen s; reg := reg s; tT := tT s; tR := v; seqc := seqc s; sres := sres s; halted := halted s; fires := fires s |}.
-Definition set_seqc v s := {| now := now s; tc := tc s; success := success s; ip := ip s; cbp := cbp s; req := req s; dlen := dlen s; reg := reg s; tT := tT s; tR := tR s; seqc := v; sres := sres s; halted := halted s; fires := fires s |}.
-Definition set_sres v s := {| now := now s; tc := tc s; success := success s; ip := ip s; cbp := cbp s; req := req s; dlen := dlen s; reg := reg s; tT := tT s; tR := tR s; seqc := seqc s; sres := v; halted := halted s; fires := fires s |}.
-Definition set_halted v s := {| now := now s; tc := tc s; success := success s; ip := ip s; cbp := cbp s; req := req s; dlen := dlen s; reg := reg s; tT := tT s; tR := tR s; seqc := seqc s; sres := sres s; halted := v; fires := fires s |}.
-Definition set_fires v s := {| now := now s; tc := tc s; success := success s; ip := ip s; cbp := cbp s; req := req s; dlen := dlen s; reg := reg s; tT := tT s; tR := tR s; seqc := seqc s; sres := sres s; halted := halted s; fires := v |}.
+Definition set_now v s := {| now := v; tc := tc s; success := success s; ip := ip s; cbp := cbp s; req := req s; dlen := dlen s; reg := reg s; tT := tT s; tR := tR s; seqc := seqc s; sres := sres s; cres := cres s; halted := halted s; fires := fires s |}.
+Definition set_tc v s := {| now := now s; tc := v; success := success s; ip := ip s; cbp := cbp s; req := req s; dlen := dlen s; reg := reg s; tT := tT s; tR := tR s; seqc := seqc s; sres := sres s; cres := cres s; halted := halted s; fires := fires s |}.
+Definition set_success v s := {| now := now s; tc := tc s; success := v; ip := ip s; cbp := cbp s; req := req s; dlen := dlen s; reg := reg s; tT := tT s; tR := tR s; seqc := seqc s; sres := sres s; cres := cres s; halted := halted s; fires := fires s |}.
+Definition set_ip v s := {| now := now s; tc := tc s; success := success s; ip := v; cbp := cbp s; req := req s; dlen := dlen s; reg := reg s; tT := tT s; tR := tR s; seqc := seqc s; sres := sres s; cres := cres s; halted := halted s; fires := fires s |}.
+Definition set_cbp v s := {| now := now s; tc := tc s; success := success s; ip := ip s; cbp := v; req := req s; dlen := dlen s; reg := reg s; tT := tT s; tR := tR s; seqc := seqc s; sres := sres s; cres := cres s; halted := halted s; fires := fires s |}.
+Definition set_req v s := {| now := now s; tc := tc s; success := success s; ip := ip s; cbp := cbp s; req := v; dlen := dlen s; reg := reg s; tT := tT s; tR := tR s; seqc := seqc s; sres := sres s; cres := cres s; halted := halted s; fires := fires s |}.
+Definition set_dlen v s := {| now := now s; tc := tc s; success := success s; ip := ip s; cbp := cbp s; req := req s; dlen := v; reg := reg s; tT := tT s; tR := tR s; seqc := seqc s; sres := sres s; cres := cres s; halted := halted s; fires := fires s |}.
+Definition set_reg v s := {| now := now s; tc := tc s; success := success s; ip := ip s; cbp := cbp s; req := req s; dlen := dlen s; reg := v; tT := tT s; tR := tR s; seqc := seqc s; sres := sres s; cres := cres s; halted := halted s; fires := fires s |}.
+Definition set_tT v s := {| now := now s; tc := tc s; success := success s; ip := ip s; cbp := cbp s; req := req s; dlen := dlen s; reg := reg s; tT := v; tR := tR s; seqc := seqc s; sres := sres s; cres := cres s; halted := halted s; fires := fires s |}.
+Definition set_tR v s := {| now := now s; tc := tc s; success := success s; ip := ip s; cbp := cbp s; req := req s; dlen := dlen s; reg := reg s; tT := tT s; tR := v; seqc := seqc s; sres := sres s; cres := cres s; halted := halted s; fires := fires s |}.
+Definition set_seqc v s := {| now := now s; tc := tc s; success := success s; ip := ip s; cbp := cbp s; req := req s; dlen := dlen s; reg := reg s; tT := tT s; tR := tR s; seqc := v; sres := sres s; cres := cres s; halted := halted s; fires := fires s |}.
+Definition set_sres v s := {| now := now s; tc := tc s; success := success s; ip := ip s; cbp := cbp s; req := req s; dlen := dlen s; reg := reg s; tT := tT s; tR := tR s; seqc := seqc s; sres := v; cres := cres s; halted := halted s; fires := fires s |}.
+Definition set_cres v s := {| now := now s; tc := tc s; success := success s; ip := ip s; cbp := cbp s; req := req s; dlen := dlen s; reg := reg s; tT := tT s; tR := tR s; seqc := seqc s; sres := sres s; cres := v; halted := halted s; fires := fires s |}.
+Definition set_halted v s := {| now := now s; tc := tc s; success := success s; ip := ip s; cbp := cbp s; req := req s; dlen := dlen s; reg := reg s; tT := tT s; tR := tR s; seqc := seqc s; sres := sres s; cres := cres s; halted := v; fires := fires s |}.
+Definition set_fires v s := {| now := now s; tc := tc s; success := success s; ip := ip s; cbp := cbp s; req := req s; dlen := dlen s; reg := reg s; tT := tT s; tR := tR s; seqc := seqc s; sres := sres s; cres := cres s; halted := halted s; fires := v |}.
 
 Inductive ev :=
   | Resolve (name : list Z) | ConnectCb | DisconnectCb | ReconnectCb (err : Z)
-  | Recv (b : list Z) | SentRes (r : Z) | Adv (dt : Z) | Dump.
+  | Recv (b : list Z) | SentRes (r : Z) | ConnRes (r : Z) | Adv (dt : Z) | Dump.
 Inductive out :=
-  | CB (a : option (list Z)) | Connect (port t : Z) (addr : list Z) | Disconnect (t : Z)
+  | CB (a : option (list Z)) | Connect (port t r : Z) (addr : list Z) | Disconnect (t : Z)
   | Sent (r t : Z) (b : list Z) | SentNull (r l t : Z)
   | State (tc_ : Z) (succ pend reqnull : bool) (dl : Z) (ta ra : bool) (ip_ : list Z)
   | Fault | Fuel.
@@ -191,7 +193,7 @@ Definition resolve2 (s : st) : st * list out :=
     let s1 := set_ip (zeros ADDR_SIZE) (set_success false s) in
     let s2 := set_seqc (seqc s1 + 1) (set_tT (arm TIMEOUT_US s1) s1) in
     let s3 := set_tc tc' (set_reg true s2) in
-    (s3, [Disconnect (now s); Connect REMOTE_PORT (now s) (nth (Z.to_nat ((tc' - 1) mod SERVER_COUNT)) SERVERS [])]).
+    (s3, [Disconnect (now s); Connect REMOTE_PORT (now s) (cres s) (nth (Z.to_nat ((tc' - 1) mod SERVER_COUNT)) SERVERS [])]).
 
 (* supla_esp_dns_resolve *)
 Definition resolve (fx : bool) (s : st) (name : list Z) : st * list out :=
@@ -259,6 +261,7 @@ Definition step (fx : bool) (s : st) (e : ev) : st * list out :=
   | ReconnectCb _ => (s, [])                      (* no reconnect callback is ever registered *)
   | Recv b => if reg s then recv s b else (s, [])
   | SentRes r => (set_sres r s, [])
+  | ConnRes r => (set_cres r s, [])                (* the value the next espconn_connect calls return *)
   | Adv dt => adv_loop ADV_FUEL (now s + Z.max 0 dt) s
   | Dump => (s, [dump s])
   end.
@@ -351,13 +354,13 @@ Definition ev_of_wire (w : wire) : ev :=
     let a0 := hd 0 a in
     if k =? 0 then Resolve b else if k =? 1 then ConnectCb else if k =? 2 then DisconnectCb
     else if k =? 3 then ReconnectCb a0 else if k =? 4 then Recv b else if k =? 5 then SentRes a0
-    else if k =? 6 then Adv a0 else Dump
+    else if k =? 6 then Adv a0 else if k =? 7 then Dump else ConnRes a0
   end.
 Definition wire_of_out (o : out) : wire :=
   match o with
   | CB (Some a) => mk 0 [1] a
   | CB None => mk 0 [0] []
-  | Connect p t a => mk 1 [p; t] a
+  | Connect p t r a => mk 1 [p; t; r] a
   | Disconnect t => mk 2 [t] []
   | Sent r t b => mk 3 [r; t] b
   | SentNull r l t => mk 4 [r; l; t] []
